@@ -351,3 +351,13 @@ Definition select_bin_ifa (o : bop) (k : rkind) : option row :=
 
 Definition select_un_ifa (o : uop) (k : rkind) : option row :=
   match o with Neg | BitNot => None | _ => select_un o k FVar end.
+
+(* ------------------------------------------------------------------ conversions (run.go convert) *)
+
+(** conversions between integer kinds: dest.Set(value.Convert(typ)); reflect converts through the
+    64-bit value of the source *)
+Definition y_convert (kto : rkind) (v : value) : res value :=
+  match v with
+  | VInt kf z => store SConv kto (if signed kf then MI z else MU z)
+  | _ => Bad
+  end.
